@@ -84,7 +84,14 @@ pub fn gen(rng: &mut Rng, tier: Tier) -> Scn {
             1 => SourceSpec::Stream(ReadSched::One),
             2 => SourceSpec::Stream(ReadSched::Fixed(*rng.pick(&[2usize, 3, 5, 7, 64, 1000]))),
             3 | 4 => SourceSpec::Stream(ReadSched::Random { seed: rng.next_u64(), max: *rng.pick(&[2usize, 10, 100, 5000]) }),
-            5 => SourceSpec::Stream(ReadSched::BufLike(*rng.pick(&[16usize, 512, 8192]))),
+            5 => {
+                if rng.chance(0.4) {
+                    // EINTR: reads of a few bytes, every 2nd..10th call is interrupted (many interruptions per block)
+                    SourceSpec::Stream(ReadSched::Interrupted { chunk: *rng.pick(&[1usize, 7, 64, 4096]), every: rng.range(2, 10) as u32 })
+                } else {
+                    SourceSpec::Stream(ReadSched::BufLike(*rng.pick(&[16usize, 512, 8192])))
+                }
+            }
             6 => SourceSpec::File,
             _ => SourceSpec::FileInRam,
         });
@@ -129,6 +136,9 @@ pub fn run(scn: &Scn, ctx: &Ctx, scratch: &Path) {
         ctx.borrow_mut().nontrivial = true;
     }
     let short_reads = scn.variants.iter().any(|v| matches!(v, SourceSpec::Stream(s) | SourceSpec::StreamAt(s, _) if *s != ReadSched::Full));
+    if scn.variants.iter().any(|v| matches!(v, SourceSpec::Stream(ReadSched::Interrupted { .. }))) {
+        ctx.borrow_mut().count_fault("read-interrupted-eintr");
+    }
     if scn.variants.iter().any(|v| matches!(v, SourceSpec::StreamAt(..))) {
         ctx.borrow_mut().count_fault("stream-not-at-start");
     }
